@@ -132,12 +132,18 @@ func RunExtremumInit(w *World, r *Report, fns []*ssa.Function) {
 						continue
 					}
 					cmp, ok := ifi.Cond.(*ssa.BinOp)
-					if !ok || (cmp.Op != token.LSS && cmp.Op != token.GTR) || !sameValueExpr(cmp.X, st.Val) {
+					if !ok || (cmp.Op != token.LSS && cmp.Op != token.GTR) {
 						continue
 					}
-					if ld, ok := cmp.Y.(*ssa.UnOp); ok {
-						if fa2, ok := ld.X.(*ssa.FieldAddr); ok && fa2.Field == fa.Field && fa2.X == fa.X {
-							cmpGuard = cmp
+					// x < field  or  field > x  (either operand order)
+					for _, pair := range [][2]ssa.Value{{cmp.X, cmp.Y}, {cmp.Y, cmp.X}} {
+						if !sameValueExpr(pair[0], st.Val) {
+							continue
+						}
+						if ld, ok := pair[1].(*ssa.UnOp); ok {
+							if fa2, ok := ld.X.(*ssa.FieldAddr); ok && fa2.Field == fa.Field && fa2.X == fa.X {
+								cmpGuard = cmp
+							}
 						}
 					}
 				}
